@@ -53,7 +53,7 @@ func (f *GetProperties) Call(s *slip.Scope, args slip.List, depth int) slip.Obje
 	default:
 		slip.TypePanic(s, depth, "plist", args[0], "property list")
 	}
-	indicators, ok := args[1].(slip.List)
+	indicators, ok := listArg(args[1])
 	if !ok {
 		slip.TypePanic(s, depth, "indicator-list", args[1], "list")
 	}
